@@ -809,13 +809,14 @@ func step(p ast.Term, e env, db DB) (out []env, ready bool, err error) {
 		if t.Predicate.IsBuiltin() {
 			return builtinAtom(t, e)
 		}
-		for _, a := range t.Args {
-			if _, isFn := a.(ast.ApplyFn); isFn {
-				return nil, false, ErrUnsupported
-			}
+		// a function application in an argument position is evaluated once its variables have values
+		// (it cannot be inverted to give them one); until then the atom is not ready
+		args, rdy, err := evalFnArgs(t.Args, e)
+		if err != nil || !rdy {
+			return nil, false, err
 		}
 		for _, tup := range db[PredKey(t.Predicate)] {
-			ne, ok := unifyArgs(t.Args, tup.Args, e)
+			ne, ok := unifyArgs(args, tup.Args, e)
 			if ok {
 				out = append(out, ne)
 			}
@@ -838,8 +839,12 @@ func step(p ast.Term, e env, db DB) (out []env, ready bool, err error) {
 		if !allBound(t.Atom, e) {
 			return nil, false, nil
 		}
+		nargs, rdy, err := evalFnArgs(t.Atom.Args, e)
+		if err != nil || !rdy {
+			return nil, false, err
+		}
 		for _, tup := range db[PredKey(t.Atom.Predicate)] {
-			if _, ok := unifyArgs(t.Atom.Args, tup.Args, e); ok {
+			if _, ok := unifyArgs(nargs, tup.Args, e); ok {
 				return nil, true, nil
 			}
 		}
@@ -893,6 +898,39 @@ func step(p ast.Term, e env, db DB) (out []env, ready bool, err error) {
 		return nil, true, nil
 	}
 	return nil, false, ErrUnsupported
+}
+
+// evalFnArgs replaces function applications among the arguments of an atom by their values; ready is
+// false while one of them mentions a variable without a value.
+func evalFnArgs(args []ast.BaseTerm, e env) ([]ast.BaseTerm, bool, error) {
+	hasFn := false
+	for _, a := range args {
+		if _, isFn := a.(ast.ApplyFn); isFn {
+			hasFn = true
+		}
+	}
+	if !hasFn {
+		return args, true, nil
+	}
+	out := make([]ast.BaseTerm, len(args))
+	for i, a := range args {
+		if _, isFn := a.(ast.ApplyFn); !isFn {
+			out[i] = a
+			continue
+		}
+		if hasWildcard(a) {
+			return nil, false, ErrUnsupported
+		}
+		v, ok, err := evalTerm(a, e)
+		if err != nil {
+			return nil, false, err
+		}
+		if !ok {
+			return nil, false, nil
+		}
+		out[i] = v
+	}
+	return out, true, nil
 }
 
 func unifyArgs(pat []ast.BaseTerm, vals []ast.Constant, e env) (env, bool) {
